@@ -211,6 +211,26 @@ def _vec_b(case):
         pyr.reset_pyrates()
 
 
+def _fort(case):
+    """the generated Fortran routine of a one-equation operator (float64), value at the declared point"""
+    import numpy as np
+    from pyrates import OperatorTemplate, NodeTemplate, CircuitTemplate
+    import pyr
+    pyr.reset_pyrates()
+    try:
+        P = _vals(case["pt"])
+        variables = {k: v for k, v in P.items() if k != "x"}; variables["x"] = f"output({P['x']})"
+        op = OperatorTemplate(name='op', equations=[case["eq"]], variables=variables)
+        c = CircuitTemplate(name='c', nodes={'A': NodeTemplate(name='nA', operators=[op])})
+        func, args, names, smap = c.get_run_func("vf_" + case["fname"], step_size=1e-3, file_name=case["fname"], backend='fortran', solver='euler',
+                                                 float_precision='float64', vectorize=False, clear=False, in_place=False, verbose=False)
+        r = func(*args)
+        r = np.array(args[2] if r is None else r, dtype=np.float64).reshape(-1)
+        return [pyr.frac(r[int(np.asarray(smap['A/op/x']).reshape(-1)[0])])]
+    finally:
+        pyr.reset_pyrates()
+
+
 def _fl(v):
     """a float result as JSON: exact hex for finite values, 'nan' / 'inf' / '-inf' otherwise"""
     import numpy as np
@@ -356,6 +376,8 @@ def impl(case):
                 return [p.lhs, p.lhs_key, bool(p._diff_eq), p.rhs, p._assign_type]
             outs.append(_guard(one))
         return outs
+    if kind == "fort":
+        return _guard(_fort, case)
     if kind == "extreme":
         return {"a": _guard(_extreme_a, case), "b": _guard(_extreme_b, case)}
     if kind == "const":
@@ -768,6 +790,31 @@ def gen_const_case(rng):
     return dict(kind="const", items=items)
 
 
+FORT = ["{a} + 1/8", "x^2*3/4 + 7/2 - {a}*(1/8 + x)", "2^-3 + {a}", "({a} + 1/4)^2 - 5/16", "x*(3/2) - 1/2^2", "{a}*3/8 + x/4 - 0.75",
+        "{a}*(1 - 3/4) + x", "7/2 - x", "{a}^2/8 + 0.5*x"]
+
+
+def gen_fort_case(rng, k):
+    """rational constants in an equation compiled by the Fortran backend (C05 and C02): exact dyadic values"""
+    a = rng.choice(["r", "k", "weight"])
+    s = FORT[k % len(FORT)].format(a=a)
+    return dict(kind="fort", eq=f"x' = {s}", s=s, pt={a: dy_val(rng), "x": dy_val(rng)}, fname=f"c05ft_{k}_{rng.randrange(10**6)}")
+
+
+def compare_fort(ctx, cases, outs, tag):
+    bad, terms, idx, raised = [], [], [], []
+    for i, (c, o) in enumerate(zip(cases, outs)):
+        if isinstance(o, dict):
+            raised.append(i); continue           # an exception is never the silent finding F7
+        terms.append(clist([f"({cqs(c['pt'])}, [], {cstr(c['s'])}, [{cq(o[0])}])"])); idx.append(i)
+    if terms:
+        l = coq_lists(ctx, f"c05_fort_{tag}", f"Definition cases : list (list item) := {clist(terms)}.\n", ["mismatches ok_items cases"])
+        bad += [idx[j] for j in l[0]]
+    g = coq_lists(ctx, f"c05_fortg_{tag}", f"Definition ss : list string := {clist([cstr(c['s']) for c in cases])}.\n",
+                  ["mismatches (fun s => guard_const_fraction (s2l s)) ss"])[0]
+    return sorted(bad), g, raised
+
+
 EXTREME_ARGS = ["1e-30", "1e-8", "1", "30", "88", "89", "100", "700", "710", "1e4", "1e30"]
 EXTREME_FUNCS = ["sigmoid", "tanh", "exp", "log", "sqrt", "absv", "sin", "cos", "sinh", "cosh"]
 BOUNDED = {"sigmoid", "tanh", "sin", "cos"}
@@ -1152,6 +1199,8 @@ def witness_fails(ctx, f):
         return bool(compare_call(ctx, [c], [o], "wit")[0])
     if c["kind"] == "vec":
         return bool(compare_vec(ctx, [c], [o], "wit")[0])
+    if c["kind"] == "fort":
+        return bool(compare_fort(ctx, [c], [o], "wit")[0])
     return isinstance(o, dict)
 
 
@@ -1160,6 +1209,7 @@ def check(ctx):
     problem = proof_problem(pr)
     quick = ctx.tier == "quick"
     n_expr, n_lhs, n_surg, n_call, n_sup, n_vec, n_nm, n_const = (130, 12, 12, 48, 24, 40, 6, 8) if quick else (3000, 150, 150, 700, 300, 600, 80, 100)
+    n_fort = 5 if quick else 36
     if problem:
         n_expr *= 3
     if ctx.replay:
@@ -1169,7 +1219,8 @@ def check(ctx):
         cases = (load_corpus("C05") + [gen_expr_case(ctx.rng) for _ in range(n_expr)] + [gen_lhs_case(ctx.rng) for _ in range(n_lhs)]
                  + [gen_surg_case(ctx.rng) for _ in range(n_surg)] + [gen_call_case(ctx.rng) for _ in range(n_call)]
                  + [gen_support_case(ctx.rng) for _ in range(n_sup)] + [gen_vec_case(ctx.rng, k) for k in range(n_vec)]
-                 + [gen_names_case(ctx.rng) for _ in range(n_nm)] + [gen_const_case(ctx.rng) for _ in range(n_const)] + gen_extreme_cases())
+                 + [gen_names_case(ctx.rng) for _ in range(n_nm)] + [gen_const_case(ctx.rng) for _ in range(n_const)] + gen_extreme_cases()
+                 + [gen_fort_case(ctx.rng, k + (ctx.seed % len(FORT))) for k in range(n_fort)])
     outs = run_impl(ctx, "c05", "impl", cases, per_case_timeout=120)
     K = lambda k: [i for i, c in enumerate(cases) if c["kind"] == k]
     bad_spec, bad_impl, crashed, guard_viol = [], [], [], {}
@@ -1244,6 +1295,18 @@ def check(ctx):
             bad_spec.append(iv[j]); bad_impl.append(iv[j])
         ctx.note(f"vec: {len(iv)} equations with index/index_range/index_axis/index_2d on vectors and matrices "
                  f"({sum(max(cases[i]['n'], 1) for i in iv)} components x 2 paths); disagreements {len(b)}")
+    # --- rational constants on the Fortran backend
+    ifo = [i for i in K("fort") if i not in crashed]
+    if ifo:
+        b, g, rz = compare_fort(ctx, [cases[i] for i in ifo], [outs[i] for i in ifo], "main")
+        crashed += [ifo[j] for j in rz]
+        for j in g:
+            if j not in rz:
+                guard_viol[ifo[j]] = ["no_const_fraction"]
+        for j in b:
+            bad_spec.append(ifo[j]); bad_impl.append(ifo[j])
+        ctx.note(f"fort: {len(ifo)} equations with rational constants through the Fortran backend; disagreements {len(b)} "
+                 f"(guard no_const_fraction false on {len(g)})")
     # --- backend functions at extreme arguments (support stream; non-finite where a finite value exists is exact and decides)
     ix = [i for i in K("extreme") if i not in crashed]
     if ix:
